@@ -725,12 +725,13 @@ Qed.
 Definition post_commit (X : list fname) (ec ec' : env) (d' : disk) (ps : pstate) : Prop :=
   exists dm, drel X d' dm /\ pfx ec ec' dm /\ dk_meta dm = Some ps /\
     (forall n, lookup n (dk_files (e_disk ec)) <> None -> lookup n (dk_files dm) = lookup n (dk_files (e_disk ec))) /\
-    dk_stable dm = dk_stable (e_disk ec).
+    dk_stable dm = dk_stable (e_disk ec) /\
+    (forall n f, lookup n (dk_files dm) = Some f -> lookup n (dk_files (e_disk ec)) = None -> df_pend f = None).
 
 Lemma post_commit_shift X ec0 ec ec' d' ps : aext ec0 ec -> e_disk ec = e_disk ec0 ->
   post_commit X ec ec' d' ps -> post_commit X ec0 ec' d' ps.
 Proof.
-  intros Ha Hd (dm & A & B & C & D & E). exists dm. split; [exact A|]. split; [eapply pfx_shift; eauto|].
+  intros Ha Hd (dm & A & B & C & D & E & F). exists dm. split; [exact A|]. split; [eapply pfx_shift; eauto|].
   split; [exact C|]. rewrite <- Hd. auto.
 Qed.
 
@@ -786,12 +787,18 @@ Proof.
       * split; [|split; [exact Hm'|split; [exact Hdel'|exact ND']]].
         exists (e_disk ec1). split; [rewrite Hd; apply HR1|].
         split; [eapply pfx_more; [apply (pfx_end ec ec1); exact Ha1|]; eapply aext_trans; [exact A1|apply Hsh]|].
-        split; [reflexivity|]. split; [intros n _; reflexivity|reflexivity].
+        split; [reflexivity|]. split; [intros n _; reflexivity|]. split; [reflexivity|].
+        intros n f Hl Hn. cbn [ec1 io_env e_disk apply_act dk_files] in Hl. congruence.
       * split; [|split; [exact Hm'|split; [exact Hdel'|exact ND']]].
         exists (e_disk ec2). split; [exact Hd|].
         split; [eapply pfx_more; [apply (pfx_end ec ec2); eapply aext_trans; eauto|apply Hsh]|].
-        split; [exact Hm2|]. split; [|rewrite Dc; reflexivity].
-        intros n Hn. rewrite Dc. cbn [apply_act dk_files]. apply lookup_update_neq. intros ->. apply Hn. exact Hfresh.
+        split; [exact Hm2|]. split; [|split; [rewrite Dc; reflexivity|]].
+        { intros n Hn. rewrite Dc. cbn [apply_act dk_files]. apply lookup_update_neq. intros ->. apply Hn. exact Hfresh. }
+        intros n f Hl Hn. rewrite Dc in Hl. cbn [apply_act dk_files] in Hl.
+        destruct (fname_eqb n (name_of si)) eqn:En.
+        { apply fname_eqb_eq in En. subst n. rewrite lookup_update_eq in Hl. inversion Hl; reflexivity. }
+        apply fname_eqb_neq in En. rewrite lookup_update_neq in Hl by exact En.
+        cbn [ec1 io_env e_disk apply_act dk_files] in Hl. congruence.
   - destruct defer; intros E1 E2; inversion E1; inversion E2; subst; left.
     + split; [reflexivity|]. split; [reflexivity|]. split; [reflexivity|]. split; [apply Rd_of_R; exact HR1|congruence].
     + split; [reflexivity|]. split; [reflexivity|]. split; [reflexivity|]. split; [|congruence].
